@@ -81,10 +81,20 @@ type fakeStateMgr struct {
 	live     *atomic.Bool
 	mu       sync.Mutex
 	watchers []func(state models.NodeStateType)
+	// afterOfflineAnswer, if set, runs once right after GetLiveNode has decided to answer "not live"
+	// (the node comes online, and its notification is delivered, before the caller acts on the answer)
+	afterOfflineAnswer func()
 }
 
 func (m *fakeStateMgr) GetLiveNode(nodeID models.NodeID) (models.StatefulNode, bool) {
 	if nodeID != followerID || !m.live.Load() {
+		m.mu.Lock()
+		h := m.afterOfflineAnswer
+		m.afterOfflineAnswer = nil
+		m.mu.Unlock()
+		if h != nil {
+			h()
+		}
 		return models.StatefulNode{}, false
 	}
 	return models.StatefulNode{
@@ -716,8 +726,9 @@ type world struct {
 	lSnaps, fSnaps []snapshot
 	snapN          int
 
-	metaMismatch string
-	notWoken     bool // an online notification was delivered and the parked replicator stayed parked
+	metaMismatch    string
+	onlineRaceFired bool
+	notWoken        bool // an online notification was delivered and the parked replicator stayed parked
 }
 
 func newWorld(base string) (*world, error) {
@@ -877,11 +888,9 @@ func (w *world) prepare() (ready, parked bool) {
 	res := make(chan bool, 1)
 	r := w.lRep
 	go func() { res <- replica.VerifReplicaPrepare(r) }()
-	if w.live.Load() {
-		return <-res, false
-	}
-	// follower is not live: IsReady either returns at once (already ready) or parks on its suspend channel
-	// after having published the "offline" state. Both are recognised from state, not from time.
+	// IsReady either returns or parks on its suspend channel after having published the "offline" state.
+	// Both are recognised from state, not from time.
+	var offlineSince time.Time
 	for i := 0; ; i++ {
 		select {
 		case ok := <-res:
@@ -890,8 +899,20 @@ func (w *world) prepare() (ready, parked bool) {
 		}
 		st, msg := replica.VerifReplicatorStateType(r)
 		if st == int(models.ReplicatorFailureState) && msg == offlineMsg {
-			w.parked = res
-			return false, true
+			if !w.live.Load() {
+				w.parked = res
+				return false, true
+			}
+			// "offline" is published although the follower is live by now: either IsReady is about to park (lost
+			// wake-up) or it noticed and moves on at once. The state must persist before it is called parked.
+			if offlineSince.IsZero() {
+				offlineSince = time.Now()
+			} else if time.Since(offlineSince) > 300*time.Millisecond {
+				w.parked = res
+				return false, true
+			}
+		} else {
+			offlineSince = time.Time{}
 		}
 		if i < 200 {
 			runtime.Gosched()
@@ -932,6 +953,27 @@ func (w *world) online() (woken, ready bool) {
 		}
 	}
 	return false, false
+}
+
+// armOnlineRace: the next time IsReady is told "follower not live", the follower comes online and the notification
+// is delivered before IsReady gets to park.
+func (w *world) armOnlineRace() {
+	m := w.lSM
+	m.mu.Lock()
+	m.afterOfflineAnswer = func() {
+		w.live.Store(true)
+		m.notify(models.NodeOnline)
+		w.onlineRaceFired = true
+	}
+	m.mu.Unlock()
+}
+
+func (w *world) disarmOnlineRace() {
+	if w.lSM != nil {
+		w.lSM.mu.Lock()
+		w.lSM.afterOfflineAnswer = nil
+		w.lSM.mu.Unlock()
+	}
 }
 
 func (w *world) offline() {
